@@ -80,8 +80,13 @@ func (f *Typecase) Call(s *slip.Scope, args slip.List, depth int) (result slip.O
 }
 
 func typecaseMatch(sym slip.Symbol, key slip.Object) bool {
-	if strings.EqualFold("null", string(sym)) && key == nil {
-		return true
+	if key == nil {
+		for _, h := range []string{"null", "symbol", "list", "sequence", "t"} {
+			if strings.EqualFold(h, string(sym)) {
+				return true
+			}
+		}
+		return false
 	}
 	for _, h := range key.Hierarchy() {
 		if strings.EqualFold(string(h), string(sym)) {
